@@ -20,8 +20,10 @@ def pools(tier):
     arr = ["$.arr", "$.nested", "$.o", "States.Array(1, 2)", "States.Array()", "'a'", "1", "null", "$.zz", "States.Array(States.Array(1), States.Array(1))"]
     strs = ["'a'", "'a,b'", "'it\\'s'", "''", "$.s", "$.q", "$.b64", "$.js", "1", "null", "$.zz", "'a^]c'", "'a-c'", "'!!!'", "$.e"]
     return {
-        "States.Format": (range(0, 4), ["'x'", "'{}'", "'x{}y{}'", "'\\{\\}'", "'it\\'s {}'", "'{0}'", "'{0.__class__}'", "'{a}'", "'{'", "'}'", "'{}{}{}'", "$.s", "1"]
-                          + ["'a'", "'a,b'", "'a)b'", "1", "$.a", "$.q", "$.zz", "States.MathAdd(1, 2)", "States.Format('<{}>', 'in')"]),
+        "States.Format": (range(0, 4), ["'x'", "'{}'", "'x{}y{}'", "'\\{\\}'", "'C:\\\\{}'", "'it\\'s {}'", "'{0}'", "'{0.__class__}'", "'{a}'", "'{'", "'}'", "'{}{}{}'", "$.s", "1"]
+                          + ["'a'", "'a,b'", "'a)b'", "1", "$.a", "$.q", "$.zz", "States.MathAdd(1, 2)", "States.Format('<{}>', 'in')"]
+                          # escaped backslashes next to every other escape and next to a placeholder (template and ordinary argument)
+                          + ["'a\\\\\\\\b{}'", "'\\\\\\{{}\\\\\\}'", "'x\\\\\\'y'", "'p\\\\q'"]),
         "States.StringToJson": (range(0, 3), strs + ["'[1, 2]'", "'{'"]),
         "States.JsonToString": (range(0, 3), ["$.o", "$.arr", "1", "'a'", "null", "$.zz", "$.nested"]),
         "States.Array": (range(0, 4), ["1", "'a,b'", "null", "true", "$.o", "$.zz", "States.Array(1)"]),
